@@ -24,6 +24,15 @@ RefStep(rs, e) ==
                "C16/Range/impossible-content-range")
          ELSE IF e.status \in {304, 412} THEN E(e.cond /\ e.blen = 0, rs, "C16/Range/conditional-status-without-precondition")
          ELSE E(e.status = 416 /\ e.hasrange, rs, "C16/Range/unexpected-status")
+    \* conditional requests with the validator the service hands out (RFC 7232: If-None-Match compares weakly, If-Match strongly;
+    \* a strong validator is assumed, which is what the service sends)
+    [] e.ev = "cond" ->
+         LET want == CASE e.variant \in {"inm-same", "inm-weak", "inm-list"} -> 304
+                       [] e.variant \in {"inm-other", "im-same"} -> 200
+                       [] e.variant \in {"im-weak", "im-other"} -> 412
+         IN E(~e.strong \/ e.status = want,
+              E(IF e.status = 200 THEN e.blen = e.L ELSE e.blen = 0, rs, "C16/Conditional/body-does-not-fit-the-status"),
+              "C16/Conditional/" \o e.variant)
     [] e.ev = "Panic" -> Rej("C16/Panic", "")
     [] OTHER -> rs
 =======================================================================================
